@@ -237,7 +237,12 @@ class Specs:
                 try:
                     self.consts[node.targets[0].id] = ('py', ast.literal_eval(node.value))
                 except Exception:
-                    pass
+                    v = node.value
+                    if isinstance(v, ast.BinOp) and isinstance(v.op, ast.Add) and isinstance(v.left, ast.Name) and v.left.id in self.consts:
+                        try:
+                            self.consts[node.targets[0].id] = ('py', self.consts[v.left.id][1] + ast.literal_eval(v.right))
+                        except Exception:
+                            pass
 
     def _params(self, node):
         return [(a.arg, type_of_annotation(a.annotation)) for a in node.args.args]
